@@ -10,7 +10,8 @@ from ..runner import BaseCheck
 from ..models.emitter import ModelEmitter
 from .. import env
 
-NAMES = ['a', 'b', 'a.b']
+# names that are different names although some conversion (decoding, case folding, stripping, normalising) would identify them
+NAMES = ['a', 'b', 'a.b', b'a', 'A', 'a ', '\u00e1', 'a\u0301']
 NCB = 6
 MAX_DELIVERIES = 400
 
@@ -141,7 +142,7 @@ class Check(BaseCheck):
     ID = 'C20'
     TITLE = 'Event emitter: ordered delivery, exact unsubscription, once means once'
     TECHNIQUE = 'history + executable reference model in lock-step; icontract class invariant on the real Emitter'
-    RULE = ('case = one seeded history of 1-40 on/once/off/emit operations over 3 names and 6 callbacks (functions, lambdas, '
+    RULE = ('case = one seeded history of 1-40 on/once/off/emit operations over 8 names (text, bytes, differing only in case / a trailing space / Unicode normal form) and 6 callbacks (functions, lambdas, '
             'bound methods, callable objects, duplicates; contexts omitted, empty, literal, or one of three host-held mappings that the '
             'history keeps changing after subscribing), callbacks scripted to on/once/off/emit during delivery to depth 3; '
             'non-trivial = at least one listener was delivered to and the history is not in the ambiguous class; distinct = distinct '
